@@ -772,7 +772,7 @@ impl<'a> Explorer<'a> {
         for len in start_len..depth {
             let mut next: Vec<u32> = Vec::new();
             for (fi, &path) in frontier.iter().enumerate() {
-                if fi % 256 == 0 && self.ctx.expired() {
+                if fi % 16 == 0 && self.ctx.expired() {
                     rep.capped(&format!("deadline at depth {} of seed {} ({}/{})", len + 1, seed.def.name, mode.name(), seed.env.name()));
                     return None;
                 }
@@ -855,7 +855,7 @@ impl Check for C34 {
             "tolerant passes accept that a page released while no trunk has room becomes trunk structure and is counted (known findings KF-C34-01/02); everything else is checked exactly",
             "seed construction histories (up to 8185 calls) evaluate the drain oracle only next to trunk boundaries and at the end",
         ];
-        s.cap_quick_s = 75;
+        s.cap_quick_s = 60;
         s.cap_thorough_s = 1100;
         vec![s]
     }
